@@ -77,15 +77,21 @@ theorem C09_send_failure_local {s s1 s2 s3 : St} {now : Nat} {r : DReq}
     (completeRequest s3 r.id .send).1.calls.filter (·.cid != r.cid) = s1.calls.filter (·.cid != r.cid) ∧
     (getCall (completeRequest s3 r.id .send).1 r.cid).map (·.os.val) = some (some .send) := by
   obtain ⟨hfe, q, key, w, hq, hs2⟩ := insertRequest_ok h2 hp
+  -- the successful insert, field by field (the self-wake only touches `dWoken` and the observations)
+  have h2in : s2.inflight = s1.inflight ++ [{ id := r.id, cid := r.cid, ctx := r.ctx, timerKey := key }] := by
+    rw [hs2]; split <;> simp
+  have h2ti : s2.timers = q := by rw [hs2]; split <;> simp
+  have h2ca : s2.calls = s1.calls := by rw [hs2]; split <;> simp
+  have h2te : s2.termErr = s1.termErr := by rw [hs2]; split <;> simp
   -- `tSend` leaves the tables alone
   have e3 : s3 = (tSend s2 (.request r.id r.ctx.deadline r.ctx.trace r.body)).1 := by rw [h3]
   have hin : s3.inflight = s1.inflight ++ [{ id := r.id, cid := r.cid, ctx := r.ctx, timerKey := key }] := by
-    rw [e3, tSend_inflight, hs2]
-  have hti : s3.timers = q := by rw [e3, tSend_timers, hs2]
-  have hca : s3.calls = s1.calls := by rw [e3, tSend_calls, hs2]
+    rw [e3, tSend_inflight, h2in]
+  have hti : s3.timers = q := by rw [e3, tSend_timers, h2ti]
+  have hca : s3.calls = s1.calls := by rw [e3, tSend_calls, h2ca]
   have hpo : s3.poisoned = false := by rw [e3, tSend_poisoned]; exact hp
   have hte : s3.termErr = s.termErr := by
-    rw [e3, tSend_termErr, hs2]
+    rw [e3, tSend_termErr, h2te]
     have := (pollNextRequest_frameP s).termErr; rw [h1] at this; exact this
   -- the entry just inserted is the one `complete_request` finds
   have hfind : findEntry s3 r.id = some { id := r.id, cid := r.cid, ctx := r.ctx, timerKey := key } := by
@@ -98,10 +104,15 @@ theorem C09_send_failure_local {s s1 s2 s3 : St} {now : Nat} {r : DReq}
   obtain ⟨q', wk, hrm⟩ : ∃ q' wk, q.remove key = some (q', wk) := by
     have := DelayQ_insert_has_key hq
     unfold DelayQ.remove; rw [if_pos this]; exact ⟨_, _, rfl⟩
-  have hcr : (completeRequest s3 r.id .send).1 =
-      osSend { s3 with inflight := s1.inflight, timers := q' } r.cid .send := by
-    unfold completeRequest; rw [hfind]; simp only
-    unfold removeTimer; simp only [hti, hrm, hfil]
+  -- `complete_request` = remove the entry, disarm the timer (possibly a self-wake), send `Send`
+  obtain ⟨sx, hcr, hxin, hxpo, hxte, hxca⟩ : ∃ sx, (completeRequest s3 r.id .send).1 = osSend sx r.cid .send ∧
+      sx.inflight = s1.inflight ∧ sx.poisoned = s3.poisoned ∧ sx.termErr = s3.termErr ∧ sx.calls = s3.calls := by
+    refine ⟨removeTimer { s3 with inflight := s3.inflight.filter (·.id != r.id) } key, ?_, ?_, ?_, ?_, ?_⟩
+    · unfold completeRequest; rw [hfind]
+    · unfold removeTimer; simp only [hti, hrm, hfil]; split <;> simp
+    · unfold removeTimer; simp only [hti, hrm]; split <;> simp
+    · unfold removeTimer; simp only [hti, hrm]; split <;> simp
+    · unfold removeTimer; simp only [hti, hrm]; split <;> simp
   -- the call is there and its receiver is open
   have hopen := pollNextRequest_open h1
   obtain ⟨c, hgc, hrx⟩ : ∃ c, getCall s1 r.cid = some c ∧ c.os.rxClosed = false := by
@@ -109,8 +120,8 @@ theorem C09_send_failure_local {s s1 s2 s3 : St} {now : Nat} {r : DReq}
     split at hopen
     · exact ⟨_, ‹_›, hopen⟩
     · cases hopen
-  have hgc3 : getCall { s3 with inflight := s1.inflight, timers := q' } r.cid = some c := by
-    unfold getCall at hgc ⊢; simp only [hca]; exact hgc
+  have hgc3 : getCall sx r.cid = some c := by
+    unfold getCall at hgc ⊢; rw [hxca, hca]; exact hgc
   refine ⟨?_, ?_, ?_, ?_, ?_, ?_⟩
   · refine pollWriteRequest_cases (motive := fun p => p = ((completeRequest s3 r.id .send).1, PW.some ())) s now
       ?_ ?_ ?_ ?_
@@ -120,10 +131,10 @@ theorem C09_send_failure_local {s s1 s2 s3 : St} {now : Nat} {r : DReq}
       rw [h1] at h1'; cases h1'; rw [h2] at h2'; cases h2'; rw [h3] at h3'; cases h3'
     · intro s1' r' s2' s3' h1' h2' _ h3'
       rw [h1] at h1'; cases h1'; rw [h2] at h2'; cases h2'; rw [h3] at h3'; cases h3'; rfl
-  · rw [hcr, osSend_inflight]
-  · rw [hcr, osSend_poisoned]; exact hpo
-  · rw [hcr, osSend_termErr]; exact hte
-  · rw [hcr, osSend_filter_ne]; simp only [hca]
+  · rw [hcr, osSend_inflight, hxin]
+  · rw [hcr, osSend_poisoned, hxpo]; exact hpo
+  · rw [hcr, osSend_termErr, hxte]; exact hte
+  · rw [hcr, osSend_filter_ne, hxca, hca]
   · rw [hcr]; exact osSend_val .send hgc3 hrx
 
 /-! ### instances -/
